@@ -483,16 +483,74 @@ theorem C10_gen_defaults :
       ("ActionPenalty", "action-penalty")] := by
   decide
 
-/-- text-shape flags of the functions the models transcribe by hand (each recomputed from the source on every run;
-deliberately blunt — the semantic ties of these functions are the differential rigs) -/
-theorem C10_gen_shape :
-    Gen.Reward.agentRewardPlumbing = true ∧ Gen.Reward.setupRewardSharingShape = true := by
+/-- text-shape flag of the two one-line agent methods (recomputed from the source on every run; deliberately blunt — their
+semantic tie is the differential rig) -/
+theorem C10_gen_shape : Gen.Reward.agentRewardPlumbing = true := by
   decide
 
-/-- the two graph functions of science.py are text-identical to the shapes Model/RewardGraph.lean transcribes (their semantic
-tie is the bounded-exhaustive differential of the rig: every graph on ≤ 4 nodes, self-loops and repeated neighbours included) -/
-theorem C10_gen_shape_graph : Gen.Reward.topoSortIsPostOrder = true ∧ Gen.Reward.cycleSearchShape = true := by
+/-- with exactly one `add` per shared component, the names added to an agent's set are its shared names in component order -/
+theorem insertedNames_eq (ops : List SOp) (h : ∀ a : Name, addsOf a ops = [a]) (comps : List (Comp × Val)) :
+    insertedNames ops comps = sharedNames comps := by
+  induction comps with
+  | nil => rfl
+  | cons c rest ih =>
+    obtain ⟨c, w⟩ := c
+    cases c <;> simp [insertedNames, sharedNames, ih, h]
+
+/-- **`setup_reward_sharing` as extracted from the source IS the model's**: for every set-iteration oracle `σ` and every dict of
+agents, running the extracted statements (one set per agent; for every `SharedReward` component the extracted `add` / callback
+statements; then the extracted tail) raises the cycle error exactly when `hasCycle (sharingGraph σ as)`, otherwise leaves
+`topoSort (sharingGraph σ as)` in `_reward_calculation_order` — what `fromConfig` does; and every shared component gets the
+callback reading `current_reward`. -/
+theorem C10_gen_setup_reward_sharing (σ : List Name → List Name) (as : List (Name × Agent)) :
+    setupProg σ Gen.Reward.setupSharingProgram as =
+      (if hasCycle (sharingGraph σ as) then .error .cycle else .ok (topoSort (sharingGraph σ as))) ∧
+    SOp.setCallback ∈ Gen.Reward.setupSharingProgram.perShared := by
+  have hadds : ∀ a : Name, addsOf a Gen.Reward.setupSharingProgram.perShared = [a] := by
+    intro a; simp [Gen.Reward.setupSharingProgram, addsOf]
+  have hg : progGraph σ Gen.Reward.setupSharingProgram as = sharingGraph σ as := by
+    simp only [progGraph, sharingGraph, insertedNames_eq _ hadds]
+  refine ⟨?_, by decide⟩
+  simp only [setupProg, hg]
+  cases hc : hasCycle (sharingGraph σ as) <;> simp [Gen.Reward.setupSharingProgram, runTail, hc]
+
+/-- the same, as `fromConfig` uses it -/
+theorem C10_gen_setup_reward_sharing_fromConfig (σ : List Name → List Name) (cfgs : List AgentCfg) :
+    fromConfig σ cfgs =
+      match setupProg σ Gen.Reward.setupSharingProgram (buildAgents cfgs) with
+      | .error e => .error e
+      | .ok order => updateAgents (.dict []) { agents := buildAgents cfgs, order := order, stepCounter := 0 } := by
+  rw [(C10_gen_setup_reward_sharing σ (buildAgents cfgs)).1]
+  simp only [fromConfig]
+  cases hasCycle (sharingGraph σ (buildAgents cfgs)) <;> simp
+
+/-! a program that is NOT `setup_reward_sharing` is told apart: no cycle check (a 2-cycle loads); two `add`s are harmless (a set) only
+through `σ`; the order never assigned -/
+example : (setupProg id { perShared := [.addArc, .setCallback], tail := [.assignOrder] }
+    [("a", { comps := [(.shared "b", 1)] }), ("b", { comps := [(.shared "a", 1)] })]).toOption = some ["b", "a"] := by decide
+example : (match setupProg id { perShared := [.addArc, .setCallback], tail := [.raiseIfCycle] }
+    [("a", { comps := [(.shared "b", 1)] }), ("b", { comps := [] })] with | .error e => some e | .ok _ => none) = some .attributeError := by decide
+
+/-! The two graph functions of science.py are no longer text-pinned: they are translated statement by statement and proved equal to
+`topoSort` / `hasCycle` for every graph in Props/C10Graph.lean (`C10_gen_topological_sort`, `C10_gen_graph_has_cycle`). -/
+
+/-- **the three `step` methods, as extracted on this run, compute the rewards on the post-step state and return them**: in the
+first step of an episode and in every later one there is exactly one simulator tick, `update_agents` runs exactly once and on a
+`get_sim_state()` snapshot taken AFTER that tick, and the two environments return `current_reward` (not the total), read once and
+AFTER `update_agents` (`pipeOK`, Model/Reward.lean). -/
+theorem C10_gen_step_pipelines :
+    Gen.Reward.stepPipelines.map (·.1) = ["PrimaiteGame.step", "PrimaiteGymEnv.step", "PrimaiteRayMARLEnv.step"] ∧
+    Gen.Reward.stepPipelines.map (·.2.1) = [false, true, true] ∧
+    Gen.Reward.stepPipelines.all (fun p => pipeOK p.2.1 p.2.2) = true := by
   decide
+
+/-! `pipeOK` tells the wrong pipelines apart: rewards on the snapshot taken before the tick; the returned reward read before
+`update_agents`; the total returned; `update_agents` only in the first step. -/
+example : pipeOK false [(false, .applyActions), (false, .getState "s"), (false, .advance), (false, .updateAgents "s")] = false := by decide
+example : pipeOK true [(false, .advance), (false, .getState "s"), (false, .readReward false), (false, .updateAgents "s")] = false := by decide
+example : pipeOK true [(false, .advance), (false, .getState "s"), (false, .updateAgents "s"), (false, .readReward true)] = false := by decide
+example : pipeOK false [(false, .advance), (true, .getState "s"), (true, .updateAgents "s")] = false := by decide
+example : pipeOK false [(true, .getState "s0"), (false, .advance), (false, .getState "s"), (false, .updateAgents "s0")] = false := by decide
 
 /-- a component whose configuration omits `weight` is registered with the model's default, and `RewardFunction.__init__`
 passes the configured weight to `register_component` unchanged -/
